@@ -222,11 +222,19 @@ func (e *obsEngine) Start(ctx context.Context, r *scan.Range) (<-chan interface{
 	return done, errc
 }
 
+// spin keeps the consumer busy for d WITHOUT going to sleep: time.Sleep of a few microseconds costs a
+// millisecond or more on a loaded machine, which made the "slow" consumer so slow that the exit delay was over before
+// the queue was drained (the named hypothesis of C08, not a fault of the code)
+func spin(d time.Duration) {
+	for t := time.Now(); time.Since(t) < d; {
+	}
+}
+
 type recWriter struct{ rc *engRec }
 
 func (w *recWriter) Write(p []byte) (int, error) {
 	if w.rc.slow > 0 {
-		time.Sleep(w.rc.slow)
+		spin(w.rc.slow)
 	}
 	w.rc.mu.Lock()
 	defer w.rc.mu.Unlock()
@@ -244,7 +252,7 @@ type recLogger struct {
 
 func (l *recLogger) Error(err error) {
 	if l.rc.slow > 0 {
-		time.Sleep(l.rc.slow)
+		spin(l.rc.slow)
 	}
 	l.rc.mu.Lock()
 	defer l.rc.mu.Unlock()
